@@ -291,3 +291,115 @@ theorem compileTokens_assemble (is : List Instr) (hwf : ∀ i ∈ is, i.wf) :
     simp only [List.map_cons, compileTokens, hi, hr, assemble]
 
 end Pycoin.Script
+
+/-! ## the string layer that can be proved: joining with one space and `str.split()` -/
+namespace Pycoin.Script
+open Pycoin.Gen.Opcodes
+
+theorem splitWs_go_token (t rest cur : Text) (hns : ∀ c ∈ t, isSpace c = false) :
+    splitWs.go (t ++ rest) cur = splitWs.go rest (t.reverse ++ cur) := by
+  induction t generalizing cur with
+  | nil => rfl
+  | cons c t ih =>
+    have hc : isSpace c = false := hns c (by simp)
+    simp only [List.cons_append, splitWs.go, hc, Bool.false_eq_true, if_false]
+    rw [ih (c :: cur) (fun x hx => hns x (by simp [hx]))]
+    simp
+
+theorem splitWs_joinSpace (toks : List Text) (h : ∀ t ∈ toks, t ≠ [] ∧ ∀ c ∈ t, isSpace c = false) :
+    splitWs (joinSpace toks) = toks := by
+  induction toks with
+  | nil => rfl
+  | cons t r ih =>
+    obtain ⟨hne, hns⟩ := h t (by simp)
+    have hr : ∀ t' ∈ r, t' ≠ [] ∧ ∀ c ∈ t', isSpace c = false := fun t' ht' => h t' (by simp [ht'])
+    have hrev : t.reverse.isEmpty = false := by
+      cases t with
+      | nil => exact absurd rfl hne
+      | cons a b => simp
+    cases r with
+    | nil =>
+      unfold splitWs
+      simp only [joinSpace]
+      have := splitWs_go_token t [] [] hns
+      simp only [List.append_nil] at this
+      rw [this]
+      simp [splitWs.go, hrev]
+    | cons t' r' =>
+      unfold splitWs at ih ⊢
+      simp only [joinSpace]
+      rw [splitWs_go_token t _ [] hns]
+      have hsp : isSpace ' ' = true := by decide
+      simp only [List.append_nil, splitWs.go, hsp, if_true, hrev, Bool.false_eq_true, if_false, List.reverse_reverse]
+      rw [ih hr]
+end Pycoin.Script
+
+namespace Pycoin.Script
+open Pycoin.Gen.Opcodes
+
+theorem names_nospace : ∀ p ∈ intToOpcodeC, (!p.2.isEmpty && p.2.all (fun c => !isSpace c)) = true := by
+  decide +kernel
+
+theorem hexdigit_nospace : ∀ n, n < 16 → isSpace (Hex.digit n) = false := by decide +kernel
+
+theorem hexlify_nospace (d : Bytes) : ∀ c ∈ hexlify d, isSpace c = false := by
+  unfold hexlify
+  induction d with
+  | nil => simp [Hex.encodeChars]
+  | cons b bs ih =>
+    intro c hc
+    simp only [Hex.encodeChars, List.mem_cons] at hc
+    have hb : b.toNat < 256 := b.toNat_lt
+    rcases hc with h | h | h
+    · rw [h]; exact hexdigit_nospace _ (by omega)
+    · rw [h]; exact hexdigit_nospace _ (by omega)
+    · exact ih c h
+
+def nameOr (op : UInt8) : Text :=
+  match dictGet op intToOpcodeC with
+  | some s => s
+  | none => "???".toList
+
+def tokenShape (s : Text) (data : Option Bytes) : Text :=
+  match data with
+  | some d => if d.length > 0 ∧ "OP_PUSH".toList.isPrefixOf s then '[' :: (hexlify d ++ [']']) else s
+  | none => s
+
+theorem dfod_eq (op : UInt8) (data : Option Bytes) :
+    disassembleForOpcodeData op data = tokenShape (nameOr op) data := by
+  cases data <;> rfl
+
+theorem nameOr_nospace (op : UInt8) : nameOr op ≠ [] ∧ ∀ c ∈ nameOr op, isSpace c = false := by
+  unfold nameOr
+  cases hn : dictGet op intToOpcodeC with
+  | none => exact ⟨by decide, by decide⟩
+  | some name =>
+    have := names_nospace (op, name) (dictGet_mem op intToOpcodeC name hn)
+    simp only [Bool.and_eq_true, Bool.not_eq_true', List.all_eq_true] at this
+    refine ⟨?_, fun c hc => by simpa using this.2 c hc⟩
+    intro h
+    have h' : name = [] := h
+    have h1 := this.1
+    rw [h'] at h1
+    simp at h1
+
+theorem dfod_nospace (op : UInt8) (data : Option Bytes) :
+    disassembleForOpcodeData op data ≠ [] ∧ ∀ c ∈ disassembleForOpcodeData op data, isSpace c = false := by
+  rw [dfod_eq]
+  have hs' := nameOr_nospace op
+  unfold tokenShape
+  cases data with
+  | none => exact hs'
+  | some d =>
+    simp only
+    split
+    · refine ⟨by simp, ?_⟩
+      intro c hc
+      simp only [List.mem_cons, List.mem_append, List.not_mem_nil, or_false] at hc
+      rcases hc with h | h | h
+      · rw [h]; decide
+      · exact hexlify_nospace d c h
+      · rw [h]; decide
+    · exact hs'
+
+end Pycoin.Script
